@@ -310,7 +310,8 @@ class C20:
                   b"*-2\r\n", b"$-2\r\n", b"*-1\r\n", b"$-1\r\n", b"%-1\r\n", b"~+2\r\n:1\r\n:2\r\n", b"*+1\r\n:+5\r\n", b":-\r\n", b":\r\n",
                   b",nan\r\n", b",-Infinity\r\n", b",1e5\r\n", b",.5\r\n", b",5.\r\n", b",.\r\n", b",1e\r\n", b",+.e1\r\n", b",0x10\r\n", b",1_0\r\n", b", 1\r\n",
                   b"_\r\n", b"_x\n", b"_\r", b"#t\r\n", b"#x\r\n", b"#t\r", b"?\r\n", b"+a\rb\r\n", b"$3\r\nabcde", b"$3\r\nabc\r", b"$0\r\n\r\n", b"*0\r\n",
-                  b"*1\r\n" * 50 + b":1\r\n", b"%1\r\n+a\r\n", b"%1\r\n+a\r\n:1\r\n"]:
+                  b"*1\r\n" * 50 + b":1\r\n", b"*1\r\n" * 128 + b":1\r\n", b"*1\r\n" * 129 + b":1\r\n", b"*1\r\n" * 130, b"~1\r\n" * 200 + b"_\r\n",
+                  b"%1\r\n:1\r\n" * 129, b"*1\r\n" * 5000, b"%1\r\n+a\r\n", b"%1\r\n+a\r\n:1\r\n"]:
             self.cmp_parse(d, "corpus")
         self.chunk_oracle(b" \r\n\t+a\r\n\r\n \t:5\r\n", list(all_chunkings(b" \r\n\t+a\r\n\r\n \t:5\r\n"))[:300], "corpus-ws")
 
@@ -335,6 +336,10 @@ class C20:
             for _ in range(mr.range(1, 3)):
                 d = mutate(mr, d)
             self.cmp_parse(d[:4096], "mut")
+            if i % 50 == 0:
+                # nesting around the limit (MAX_NESTING containers): accepted at the limit, refused beyond, never a crash
+                depth = mr.choice([100, 127, 128, 129, 130, 300, 3000])
+                self.cmp_parse(mr.choice([b"*1\r\n", b"~1\r\n", b"*2\r\n:1\r\n"]) * depth + mr.choice([b":7\r\n", b"", b"$1\r\nx\r\n"]), "nest")
             if i < 3:
                 rep.sample({"parse": hx(d[:80])})
         # streams of frames + garbage in random chunkings
@@ -403,7 +408,7 @@ def main(tier, seed):
         "Rust's f64 Display/FromStr are parameters of the model: parse(fmt x) = x for non-NaN x (sampled, not proved)",
         "bytes are modelled as Nat; the harness sends values < 256 only",
         "buffer compaction in RespParser is unobservable and not modelled",
-        "stack depth of the recursive descent is runtime behaviour (see C06); the model's fuel is discharged by theorem",
+        "the recursion depth of the parser is the nesting budget of the model (MAX_NESTING, regenerated from parser.rs); the stack cost per level is runtime",
     ]
     ok, log, errs = proof_phase(rep, families=["resp"])
     build_harness("resp")
